@@ -9,6 +9,18 @@ _PENDING = "no registered check yet at this commit (model and correspondence und
 NOT_APPLICABLE = {f"C{i:02d}": _PENDING for i in range(1, 21)}
 
 META = {
+    "C10": {
+        "text": ("Lean theorems for every facet request and every list of matching documents: a term's counter is the number of "
+                 "matching documents containing it (documents list each term once), Total counts every visited term, Missing the "
+                 "documents without an accepted term; reported buckets are in count-descending then name-ascending order (a strict "
+                 "total order on distinct names); listed + Other = Total; when the size covers all buckets every counter is "
+                 "reported. Size, From and Sort are not inputs of the model; that the real collector feeds every match to the "
+                 "builders is checked by the correspondence (Index.Search on both engines with random page/sort settings)."),
+        "design_ref": "DESIGN.md section 4, C10",
+        "note": ("trusted: Lean kernel, Go harness, Go regexp, engines' doc-value visiting. Numeric/date range builders are "
+                 "executable models compared with the code; their per-range count theorem is not yet stated."),
+        "technique": "Lean 4 proof over executable facet-builder model + I/O-equality correspondence on SearchResult.Facets",
+    },
     "C15": {
         "text": ("Lean theorems about the ordered-map model the adapters are compared with: get/put/delete laws (last write wins, "
                  "other keys untouched), every batch (merges against pre-batch values, then sets/deletes in call order) keeps the "
